@@ -342,6 +342,25 @@ func (r *Raft) restore() error {
 		r.lastIncludedTerm = metadata.LastIncludedTerm
 		r.commitIndex = metadata.LastIncludedIndex
 		r.lastApplied = metadata.LastIncludedIndex
+
+		// If the node went down while this snapshot was being installed, the log has not been
+		// brought in line with it. Discard the log if it does not contain the last entry of the
+		// snapshot, as the installation would have done. Otherwise, the node would reject the entries
+		// that follow the snapshot and the snapshot itself, which it already has.
+		inLine := r.log.LastIndex() >= metadata.LastIncludedIndex
+		if r.log.Contains(metadata.LastIncludedIndex) {
+			entry, err := r.log.GetEntry(metadata.LastIncludedIndex)
+			if err != nil {
+				return fmt.Errorf("could not get entry from log: %w", err)
+			}
+			inLine = entry.Term == metadata.LastIncludedTerm
+		}
+		if !inLine {
+			if err := r.log.DiscardEntries(metadata.LastIncludedIndex, metadata.LastIncludedTerm); err != nil {
+				return fmt.Errorf("could not discard log entries: %w", err)
+			}
+		}
+
 		if err := r.fsm.Restore(file); err != nil {
 			return fmt.Errorf("could not restore state machine with snapshot: %w", err)
 		}
